@@ -33,6 +33,10 @@ Theorem C14_url_roundtrip : forall s, wf_bytes s -> t_out (t_url_decode (t_out (
 Proof. exact t_url_roundtrip. Qed.
 Print Assumptions C14_url_roundtrip.
 
+Theorem C14_base64_roundtrip : forall s, wf_bytes s -> t_out (t_base64_decode (t_out (t_base64_encode s))) = s.
+Proof. exact t_base64_roundtrip. Qed.
+Print Assumptions C14_base64_roundtrip.
+
 Theorem C14_length_spec : forall s, t_out (t_length s) = itoa (N.of_nat (length s)).
 Proof. exact t_length_spec. Qed.
 Print Assumptions C14_length_spec.
